@@ -85,6 +85,8 @@ class Prop(SeqProp):
             c = self.mk(ivs)
             if big_case:
                 c.meta["ints_only"] = True
+            elif rng.random() < 0.12:
+                c.meta["numeric"] = "decimal"
             yield c
 
     def run_impl(self, case):
@@ -93,6 +95,12 @@ class Prop(SeqProp):
         out = []
         ints_only = bool(case.meta.get("ints_only"))
         pv = (lambda n, as_float=False: n) if ints_only else pyval
+        if case.meta.get("numeric") == "decimal" and not ints_only:
+            # bounds and keys of other numeric types that order with ints and floats: decimal.Decimal (prices, fee tables),
+            # fractions.Fraction
+            import decimal
+            import fractions
+            pv = lambda n, as_float=False: (decimal.Decimal(n) / 2) if as_float or n % 4 == 1 else fractions.Fraction(n, 2)
         unit = 1 if ints_only else 2
         for st in case.meta["impl"]:
             try:
